@@ -56,7 +56,7 @@ MIN_HITS = {
         'layout:transposed': 30, 'layout:field-view': 20, 'order:swapped': 50, 'shape:0d': 50, 'shape:empty': 50,
         'shape:rank>=4': 30, 'dtype:bfloat16': 20, 'dtype:float16': 20, 'dtype:complex64': 20, 'dtype:uint64': 20,
         'dtype:bool': 20, 'depth:0': 20, 'depth:4': 20, 'reject:raised-serialize': 50, 'reject:raised-deserialize': 20,
-        'sqlite:clients': 150, 'state:checkpoints': 40, 'hit:failed-save': 25, 'hit:sqlite-overlapping-reads': 50, 'hit:sqlite-bulk': 6,
+        'sqlite:clients': 150, 'state:checkpoints': 40, 'hit:failed-save': 25, 'hit:sqlite-overlapping-reads': 50, 'hit:sqlite-bulk': 6, 'hit:huge-structure': 2, 'ckpt-dir:./relative': 2, 'ckpt-dir:inner /./': 2, 'ckpt-dir:doubled slash': 2,
     },
     'thorough': {
         'mon:roundtrip': 12000, 'mon:reject': 3000, 'mon:sqlite': 3000, 'mon:state': 1000, 'mon:readonly': 12000,
@@ -66,7 +66,7 @@ MIN_HITS = {
         'shape:0d': 1000, 'shape:empty': 1000, 'shape:rank>=4': 500, 'dtype:bfloat16': 300, 'dtype:float16': 300,
         'dtype:complex64': 300, 'dtype:uint64': 300, 'dtype:bool': 300, 'depth:0': 300, 'depth:4': 300,
         'reject:raised-serialize': 1000, 'reject:raised-deserialize': 300, 'sqlite:clients': 3000,
-        'state:checkpoints': 700, 'hit:failed-save': 400, 'hit:sqlite-overlapping-reads': 900, 'hit:sqlite-bulk': 40,
+        'state:checkpoints': 700, 'hit:failed-save': 400, 'hit:sqlite-overlapping-reads': 900, 'hit:sqlite-bulk': 40, 'hit:huge-structure': 8, 'ckpt-dir:./relative': 40, 'ckpt-dir:inner /./': 40, 'ckpt-dir:doubled slash': 40,
     },
 }
 TECHNIQUE = ('runtime monitoring: structural bitwise round-trip oracle over generated nested structures, reject-or-equal '
@@ -903,6 +903,28 @@ def run_sqlite_bulk(ctx, sfd, rng, scratch, case_no):
     shutil.rmtree(d, ignore_errors=True)
 
 
+def run_huge(ctx, ser, rng, case_no):
+  """Structures whose serialized form exceeds 100 MiB / 128 MiB (any buffer limit of the codec): exact round trip."""
+  mib = int([101, 129, 150, 257][case_no % 4])
+  big = np.frombuffer(np.random.RandomState(case_no).bytes(1 << 20), np.uint8)
+  big = np.tile(big, mib)[:mib * (1 << 20) - int(rng.randint(0, 64))].copy()
+  big[::4099] = 7
+  tree = {'big': big, 'small': np.arange(5, dtype=np.int32), 'n': int(mib)}
+  wit = {'family': 'huge', 'leaf_MiB': mib}
+  r = ctx.call('msgpack_serialize', ser.msgpack_serialize, tree, witness=wit)
+  if r.ok:
+    ctx.count('hit:huge-structure')
+    wit['serialized_bytes'] = len(r.value)
+    r2 = ctx.call('msgpack_deserialize', ser.msgpack_deserialize, r.value, witness=wit)
+    if r2.ok:
+      got = r2.value
+      same = (isinstance(got, dict) and set(got) == set(tree) and isinstance(got['big'], np.ndarray) and got['big'].dtype == np.uint8
+              and got['big'].shape == big.shape and bool(np.array_equal(got['big'], big))
+              and np.array_equal(got['small'], tree['small']) and got['small'].dtype == np.int32 and got['n'] == mib)
+      ctx.check(same, 'roundtrip/huge-structure-differs', f'a structure with a {mib} MiB leaf does not round-trip', wit)
+  ctx.case_done(('huge', mib), sample=wit, klass=['huge'])
+
+
 def _install_state_class(fedjax):
   mod = sys.modules[__name__]
   if hasattr(mod, 'C16State'):
@@ -996,9 +1018,16 @@ def run_state(ctx, fedjax, rng, scratch):
         compare_state(state, r2.value, mism)
         ctx.check(not mism, 'state/load-state-differs', 'load_state(save_state(s)) != s: ' +
                   '; '.join(f'{p}: {dt}' for p, _, dt, _, _ in mism[:3]), wit)
-    # ---- checkpoint history
+    # ---- checkpoint history; the directory is named the way callers name directories: absolute, relative to the working
+    #      directory, with a leading "./", an inner "/./", a doubled or a trailing slash (all the same directory)
     root = os.path.join(d, 'ckpt')
     os.makedirs(root)
+    rel = os.path.relpath(root, os.getcwd())
+    spelling = int(rng.randint(7))
+    root = [root, root, rel, './' + rel, os.path.join(os.path.dirname(rel), '.', os.path.basename(rel)),
+            os.path.dirname(rel) + '//' + os.path.basename(rel), root + '/'][spelling]
+    wit['checkpoint_dir_spelling'] = ['absolute', 'absolute', 'relative', './relative', 'inner /./', 'doubled slash', 'trailing slash'][spelling]
+    ctx.count('ckpt-dir:' + wit['checkpoint_dir_spelling'])
     r0 = ctx.call('load_latest_checkpoint', checkpoint.load_latest_checkpoint, root, witness=wit)
     if r0.ok:
       ctx.check(r0.value is None, 'state/empty-dir-not-none', f'load_latest_checkpoint(empty dir) = {r0.value!r:.100}', wit)
@@ -1105,6 +1134,8 @@ def run(ctx):
       run_reject(ctx, ser, rng, depth=(idx // len(_UNSUPPORTED)) % 5, kind=kind)
     for cid, rng in ctx.cases('sqlite', n_sq):
       run_sqlite(ctx, sfd, rng, scratch)
+    for cid, rng in ctx.cases('huge', 2 if ctx.quick else 8):
+      run_huge(ctx, ser, rng, int(cid.split('/')[1]))
     for cid, rng in ctx.cases('sqlite-bulk', 8 if ctx.quick else 48):
       run_sqlite_bulk(ctx, sfd, rng, scratch, int(cid.split('/')[1]))
     for cid, rng in ctx.cases('state', n_st):
